@@ -62,6 +62,20 @@ class C09(EvalFamProp):
                 cut = rng.randrange(1, len(items))
                 docs = [{'raw': M(items[:cut])}, {'raw': M(items[cut:])}]
             out[i % len(out)] = {'docs': docs, 'style': ['flow', 0, 0]}
+        # one TAGGED node placed under two keys by a YAML anchor / alias, and references to either key, in random key order
+        # (seeded change S6-C09: a reference to the second key was reported as circular); outside the model: oracle only
+        for i in range(max(3, n // 20)):
+            tgt = rng.choice([lambda: M([('z', S(3))], kw={'prio': 1}), lambda: Q([S(1), S(2)], kw={'del': False}), lambda: S(7, kw={'prio': -1}),
+                              lambda: M([(0, S(1))], tag={'k': 'call', 'f': 'rec.g'})])()
+            a, b = rng.sample(['a', 'b', 'c', 'd'], 2)
+            items = [(a, dict(tgt, anchor='sh')), (b, {'alias': 'sh'})]
+            tail = [(nm, Stext(rng.choice([a, b, b]), 'xref')) for nm in rng.sample(['r', 's', 't'], rng.choice([1, 2, 3]))]
+            if rng.random() < 0.4:
+                tail.append(('u', Q([Stext(b, 'xref'), Stext(a, 'xref')])))
+            rng.shuffle(tail)
+            pos = rng.randrange(len(tail) + 1)
+            items = tail[:pos] + items + tail[pos:] if rng.random() < 0.5 else items + tail      # the anchor precedes its alias
+            out[(3 * i + 2) % len(out)] = {'docs': [{'raw': M(items), 'shared': True}], 'style': ['flow', 0, 0]}
         # shared path strings: a single key whose text spells a nested path ("o.lr" next to o: {lr: ..}, "a[0]" next to a: [..])
         # plus references whose text is that string, all in random key order (a reference means the nested path, repo fix D33)
         for i in range(max(3, n // 15)):
@@ -77,6 +91,21 @@ class C09(EvalFamProp):
             rng.shuffle(items)
             out[(len(out) - 1 - i) % len(out)] = {'docs': [{'raw': M(items)}], 'style': ['flow', 0, 0]}
         return out
+
+    def model_requests(self, case):
+        if any(d.get('shared') for d in case['docs']):
+            return []
+        return super().model_requests(case)
+
+    def model_obs(self, case, answers):
+        if any(d.get('shared') for d in case['docs']):
+            return {'shared': True}
+        return super().model_obs(case, answers)
+
+    def compare(self, case, io, mo):
+        if any(d.get('shared') for d in case['docs']):
+            return 'SKIP'           # node sharing (YAML anchors / aliases) is outside the model's domain
+        return super().compare(case, io, mo)
 
     def oracle(self, case, io, ans):
         cfg = io['cfg']
